@@ -175,9 +175,14 @@ def run(c):
                         idx.append((j, tuple(S) + ("copies",)))
         o = os.path.join(rd, "multi_%d.ndjson" % i)
         rc, out = vlib.sh("%s multi %s %s" % (exe, f, o), timeout=1800)
-        if rc != 0:
-            raise vlib.Inconclusive("ray harness (multi) failed rc=%d %s" % (rc, out[-400:]))
-        return ch, res, idx, vlib.read_ndjson(o), r
+        got = c02.read_partial(o)
+        if rc != 0 and len(got) < len(idx):
+            j, S = idx[len(got)]
+            c.violation("split:crash-or-hang:layout=%dx%dx%d%s" % (tuple(S[:3]) + (":copies" if len(S) == 4 else "",)),
+                        "tracing a packet through the chain of subgrids did not finish (harness rc=%d: 124 = time limit, 139 = segmentation "
+                        "fault, 134 = abort) for %s, layout %s %s" % (rc, {k: ch[j][k] for k in ("G", "per", "p", "d", "tau2", "frame")}, S, out[-200:]),
+                        {"case": {k: ch[j][k] for k in ("G", "per", "p", "d", "kapG", "tau2", "frame")}, "layout": S})
+        return ch, res, idx, got, r
 
     with ThreadPoolExecutor(max_workers=8) as ex:
         results = list(ex.map(job, enumerate(chunks)))
